@@ -59,6 +59,13 @@ def run(F, R, tier):
         ok = bool(roll) and bool(writes) and B.path([0], writes, cut_blocks=roll) is None
         R.check(ok, "C19.R1", "C19.R1:%s:roll-before-write" % fn["id"], "%s:%s" % (fn["file"], fn["line"]),
                 "%s: roll_if_needed is on every path to a write (%d write site(s))" % (name, len(writes)))
+        # ... and before the file is opened: a handle opened first follows the file through the rename and the batch lands in the archive
+        opens = [c[0] for c in B.calls_named("RollingLogger::open_file")]
+        oko = bool(opens) and bool(roll) and B.path([0], opens, cut_blocks=roll) is None and B.path(opens, roll) is None
+        R.check(oko, "C19.R1", "C19.R1:%s:roll-before-open" % fn["id"], "%s:%s" % (fn["file"], fn["line"]),
+                "%s: the file is opened after roll_if_needed and never rolled while the handle is open" % name,
+                "%s opens the log file before (or across) roll_if_needed: the handle follows the renamed file and the writes go to the "
+                "archived file, which is already at its size limit" % name)
     rf = R.anchor(RL + "roll_if_needed", "C19.R1")
     if rf:
         B = mir.Body(rf, F)
